@@ -11,7 +11,8 @@ ENGINE = 'E2 explicit-state BFS over histories of valid and rejected calls, diff
 RULE = ("breadth-first search over histories mixing valid add_* events with rejected ones (wrong-type value, value "
         "outside an enumeration, reference of the wrong class, bad cast_dtype, non-string name, duplicate origin "
         "reference, rejected assignment to an existing object, for several object types; rejection before or after "
-        "the object registered itself); oracle: the file equals byte for byte the file of the same history with the "
+        "the object registered itself); a static family rejects one call of EVERY object kind (21) before the first / "
+        "after one / twice, in default and named sets; oracle: the file equals byte for byte the file of the same history with the "
         "rejected events deleted, and every 'rejected' event really raised. Separate family: failing writes (missing "
         "dataset, bad window, unsupported dtype, 3-D data, too small chunk, directory target; after partial set-up "
         "from wrong-shaped data) followed by a repaired write, compared with a fresh specification; non-trivial = "
@@ -213,11 +214,44 @@ OKS = ['ok-dict', 'ok-dict-extra-key', 'ok-struct', 'ok-window']
 FINALS = ['dict', 'struct', 'h5', 'dict-missing-key']
 
 
+# one rejected call per object kind: (bad keyword arguments, valid keyword arguments of the call that follows)
+KIND_REJECT = {
+    'axis': ({'spacing': 'wide'}, {}),
+    'calibration': ({'calibrated_channels': [{'$ref': 'Z'}]}, {}),
+    'calibration_coefficient': ({'coefficients': ['a']}, {}),
+    'calibration_measurement': ({'phase': 'NOT-A-PHASE'}, {}),
+    'channel': ({'minimum_value': 'low'}, {}),
+    'comment': ({'text': 5}, {}),
+    'computation': ({'values': 'abc'}, {}),
+    'equipment': ({'status': 2}, {}),
+    'frame': ({'channels': [{'$ref': 'C2'}], 'encrypted': 'perhaps'}, {'channels': [{'$ref': 'C2'}]}),
+    'group': ({'group_list': [{'$ref': 'C'}]}, {}),
+    'long_name': ({'quantity': 5}, {}),
+    'message': ({'text': 5}, {}),
+    'no_format': ({'description': 5}, {}),
+    'origin': ({'well_id': 5, 'file_set_number': 3, 'creation_time': S.FIXED_ORIGIN_KW['creation_time']},
+               {'file_set_number': 3, 'creation_time': S.FIXED_ORIGIN_KW['creation_time']}),
+    'parameter': ({'zones': [{'$ref': 'C'}]}, {}),
+    'path': ({'frame_type': {'$ref': 'C'}}, {}),
+    'process': ({'status': 'NOT-A-STATUS'}, {}),
+    'splice': ({'output_channel': {'$ref': 'Z'}}, {}),
+    'tool': ({'status': 2}, {}),
+    'well_reference_point': ({'permanent_datum': 5}, {}),
+    'zone': ({'description': 5}, {}),
+}
+
+
 def shards(tier):
-    return [{'fw': f} for f in FAILS + OKS]
+    return [{'fw': f} for f in FAILS + OKS] + [{'kinds': True}]
 
 
 def cases(shard, tier):
+    if shard.get('kinds'):
+        for k in KIND_REJECT:
+            for where in ('before-first', 'after-one', 'twice'):
+                for named in (False, True):
+                    yield {'kindrej': k, 'where': where, 'named': named}
+        return
     for final in FINALS:
         yield {'fw': [shard['fw']], 'final': final}
         for g in FAILS + OKS:
@@ -300,7 +334,46 @@ def _final_kwargs(final):
     raise ValueError(final)
 
 
+def kind_specs(c):
+    k = c['kindrej']
+    bad, good = KIND_REJECT[k]
+    sn = {'set_name': 'NAMED'} if c['named'] else {}
+    base = [S.op_lf(), S.op_origin(),
+            S.op_add('channel', 'C', 'CHAN', data=S.arr_spec('uint8', [2], [1, 2])),
+            S.op_add('channel', 'C2', 'CHAN2', data=S.arr_spec('uint8', [2], [3, 4])),
+            S.op_add('frame', 'F', 'FRAME', channels=[{'$ref': 'C'}]), S.op_add('zone', 'Z', 'ZONE')]
+    if k != 'frame':
+        base.append(S.op_add('frame', 'F2', 'FRAME2', channels=[{'$ref': 'C2'}]))
+    rej = S.op_add(k, 'RJ', 'X', expect='raise', **dict(bad, **sn))
+    ok1 = S.op_add(k, 'OK1', 'X', **dict(good, **sn))
+    ok2 = S.op_add(k, 'OK2', 'Y', **dict(good, **sn)) if k != 'frame' else None
+    if c['where'] == 'before-first':
+        full, clean = [rej, ok1], [ok1]
+    elif c['where'] == 'after-one':
+        full, clean = [ok1, rej] + ([ok2] if ok2 else []), [ok1] + ([ok2] if ok2 else [])
+    else:
+        full, clean = [rej, dict(rej, h='RJ2'), ok1], [ok1]
+    mk = lambda ops: {'sul': {'max_record_length': 8192}, 'ops': base + ops, 'write': {}}
+    return mk(full), mk(clean)
+
+
 def run_case(case):
+    if 'kindrej' in case:
+        full, clean = kind_specs(case)
+        notes, got = _run(full)
+        _, want = _run(clean)
+        viol = [(f"C20:{n}", f"{case}") for n in notes]
+        if isinstance(want, str):
+            return Outcome('harness', [("C20:harness:clean-kind-spec-failed", f"{want} | {case}")], False)
+        if notes:
+            return Outcome('not-rejected', viol, True)
+        if isinstance(got, str):
+            viol.append((f"C20:later-write-fails:kind:{case['kindrej']}", f"{got} | {case}"))
+        elif got != want:
+            cls = _classify(got, want)
+            viol.append((f"C20:trace:{cls}" + ('' if cls == 'set-order' else f":kind:{case['kindrej']}"),
+                         f"file differs from the history without the rejected {case['kindrej']} call | {case}"))
+        return Outcome(f"ok:kind:{case['where']}", viol, True, digest=sha(got) if not isinstance(got, str) else got[:30])
     if 'history' in case:
         return check_state(case['history'])
     viol = []
